@@ -1,7 +1,7 @@
 -------------------------------- MODULE JWIT --------------------------------
 (* Judge clauses for C15: a returned simulation run / derivation is a trace and  *)
 (* is validated step by step against the automaton's own step relation.          *)
-EXTENDS Util, FA, PDA, NfaSimSteps
+EXTENDS Util, FA, PDA, NfaSimSteps, PdaSimSteps
 
 BadW(name, cond) == IF cond THEN {name} ELSE {}
 
@@ -58,4 +58,7 @@ JSimPda(e) ==
      ELSE IF e.exc # "none" THEN (IF acc /\ below THEN {"raised_" \o e.exc} ELSE {})
      ELSE (IF below THEN BadW("none_iff_rejected", e.isnone # ~acc) ELSE BadW("none_iff_rejected", ~e.isnone /\ ~acc))
           \cup (IF ~e.isnone THEN BadW("run_valid", ~ValidPdaRun(P, e.w, e.run)) ELSE {})
+          \* binding (not a property clause): below the limit the run is a behaviour of PdaSim.tla
+          \cup (IF ~e.isnone /\ below /\ ValidPdaRun(P, e.w, e.run)
+                THEN BadW("binding_run_is_model_behaviour", ~IsModelRunP(P, e.w, e.run, e.limit)) ELSE {})
 =============================================================================
